@@ -4,4 +4,16 @@ K1 == <<1, 7, 7, 0, 9, 0, 3, 3>>
 K2 == <<1, 7, 7, 0, 9, 0, 3, 4>>
 K3 == <<2, 7, 7, 0, 9, 0, 3, 3>>
 MCKeys == {K1, K2, K3}
+KeyNo(k) == IF k = K1 THEN 1 ELSE IF k = K2 THEN 2 ELSE 3
+\* one scenario per transition of the state graph; a crash step carries the contents the model's recovery finds
+Ops(h, rec) == [i \in 1..Len(h) |->
+   IF h[i].op = "flush" THEN [op |-> "flush"]
+   ELSE IF h[i].op = "prigc" THEN [op |-> "prigc", lowUse |-> h[i].lowUse, deadline |-> 0]
+   ELSE IF h[i].op = "idxgc" THEN [op |-> "idxgc", scanFree |-> h[i].scanFree, deadline |-> 0]
+   ELSE IF h[i].op = "rem" THEN [op |-> "rem", k |-> KeyNo(h[i].k)]
+   ELSE IF h[i].op = "reopen" THEN [op |-> "reopen", snap |-> IF h[i].how = "snapshot" THEN "keep" ELSE "drop"]
+   ELSE IF h[i].op = "crash" THEN [op |-> "crash", np |-> h[i].np, ni |-> h[i].ni, fl |-> h[i].fl,
+                                   rec |-> IF i = Len(h) THEN <<rec[K1], rec[K2], rec[K3]>> ELSE <<>>]
+   ELSE [op |-> "put", k |-> KeyNo(h[i].k), vlen |-> h[i].v]]
+EmitEdges == [][PrintT(<<"SCN", ToJson([ops |-> Ops(hist', kv')])>>)]_cvars
 =======================================================================
